@@ -47,9 +47,19 @@ def linear(t):
     return c
 
 
+HELPERS = {}   # path of a verified charging helper -> summary (filled by charge_helpers)
+
+
+def payload(t, variant):
+    """Term of the first field of `t as <variant>`."""
+    return ("field", ("as", t, variant), "0")
+
+
 class PathSummary:
     def __init__(self, fn, p):
         self.p = p
+        self.posts = []               # terms that denote the usage right after this call's own charge
+        self.charge_results = []      # (result term of a charging helper, amount term)
         self.net = Counter()          # effect on `used`, as {amount term: coefficient}
         self.adds = []                # (result term, amount term)
         self.maxes = []               # value terms passed to max.fetch_max
@@ -84,8 +94,20 @@ class PathSummary:
                         self.other_field_ops.append((str(f), op, bb))
                 elif "GlobalAlloc" in name and args and field_of(args[0]) == "parent":
                     self.parent_calls.append((name.split("::")[-1], args[1:], res))
+                elif name in HELPERS and args and args[0] in (("ref", ("deref", ("arg", 1))), ("arg", 1)):
+                    self.charge_results.append((res, args[1], bb))
             elif ev[0] == "branch":
                 self.branches.append(ev)
+        # a charging helper adds its amount exactly on the paths that took the Some edge of its result
+        for res, amount, bb in self.charge_results:
+            ev = self.branch_on(lambda t, res=res: t == ("discr", res))
+            if ev is None:
+                self.other_field_ops.append(("used", "charge-result-not-tested", bb))
+            elif variant_label(ev) == "Some":
+                self.net[amount] += 1
+                self.posts.append(Counter(linear(payload(res, "Some"))))
+        for r, a in self.adds:
+            self.posts.append(Counter(linear(("binop", "Add", r, a))))
         # identity: saturating_sub(a, b) - saturating_sub(b, a) == a - b  (charging only the growth)
         for k in list(self.net):
             if k[0] == "call" and k[1].endswith("saturating_sub") and self.net.get(k, 0) > 0:
@@ -108,6 +130,15 @@ class PathSummary:
             if pred(ev[2]):
                 return ev
         return None
+
+
+def variant_label(ev):
+    """Option discriminant switch: value 1 = Some, 0 = None; `otherwise` is the value not listed."""
+    lab, listed = ev[3], ev[4]
+    if lab == "otherwise":
+        rest = [v for v in (0, 1) if v not in listed]
+        lab = rest[0] if len(rest) == 1 else None
+    return {0: "None", 1: "Some"}.get(lab)
 
 
 def classify(ps):
@@ -146,6 +177,8 @@ def run(chk, F):
                "Orderings are not analysed")
     chk.assume("std::alloc::Layout::size(&Layout::from_size_align_unchecked(s, a)) == s")
 
+    HELPERS.clear()
+    chk.guard("charge-cannot-wrap", "Alloc", lambda: charge_helpers(chk, F))
     methods = {}
     for m in ("alloc", "alloc_zeroed", "realloc", "dealloc"):
         try:
@@ -233,22 +266,21 @@ def check_method(chk, m, fn):
                    "success path: net effect on used = %s" % net_str(ps.net),
                    "success path changes used by %s, expected %s [%s]" % (net_str(ps.net), net_str(want_success), desc))
         chk.decide(lim is not None and lim[1] is True, "path-effects", fk, "success:limit-gate", where,
-                   "success only through the accepting edge of `fetch_add(used, n) + n <= limit.load()`",
+                   "success only through the accepting edge of this call's own `post-add usage <= limit.load()` test",
                    "success path is not behind `post-add value of this call <= limit` [%s]" % desc)
         # the charged amount precedes the parent call (charge-before-allocate)
         order = [ev for ev in p.events if ev[0] == "call"]
-        idx_add = next((i for i, ev in enumerate(order) if ev[2].endswith("fetch_add")), None)
+        idx_add = next((i for i, ev in enumerate(order) if ev[2].endswith("fetch_add") or ev[2] in HELPERS), None)
         idx_par = next((i for i, ev in enumerate(order) if "GlobalAlloc" in ev[2]), None)
         chk.decide(idx_add is not None and idx_par is not None and idx_add < idx_par, "path-effects", fk,
                    "success:charge-first", where, "used is charged before the parent is asked",
                    "the parent allocator is called before the request is charged to used")
         # peak rule
-        post = [Counter(linear(("binop", "Add", r, a))) for r, a in ps.adds]
-        okmax = any(Counter(linear(v)) in post for v in ps.maxes)
+        okmax = any(Counter(linear(v)) in ps.posts for v in ps.maxes)
         chk.decide(okmax, "peak", fk, "success:fetch_max", where,
                    "max.fetch_max(post-add value) on the success path",
-                   "no max.fetch_max of the post-add value (%s) on the success path: growth through %s is "
-                   "invisible to the reported peak" % (" | ".join(tstr(("binop", "Add", r, a)) for r, a in ps.adds) or "none", m))
+                   "no max.fetch_max of the post-add value on the success path: growth through %s is "
+                   "invisible to the reported peak" % m)
     need = {"dealloc": {"dealloc": 1}}.get(m, {"refused": 1, "parent_failed": 1, "success": 1})
     for k, n in need.items():
         if kinds.get(k, 0) < n:
@@ -256,7 +288,12 @@ def check_method(chk, m, fn):
 
 
 def limit_branch(ps):
-    """Find the branch on Le(post_add, limit_load): returns (event, taken_true) or None."""
+    """Find the branch on Le(post_add, limit_load): returns (event, taken_true) or None.  A verified charging helper has
+    made that test itself (and the overflow test): its Some edge is the accepting edge."""
+    for res, amount, bb in ps.charge_results:
+        ev = ps.branch_on(lambda t, res=res: t == ("discr", res))
+        if ev is not None:
+            return (ev, variant_label(ev) == "Some")
     for ev in ps.branches:
         t = ev[2]
         if t[0] == "binop" and t[1] in ("Le", "Lt", "Ge", "Gt"):
@@ -269,15 +306,139 @@ def limit_branch(ps):
             if strict:
                 continue  # `<` would refuse an exactly-fitting request; not the documented contract
             lim_ok = b[0] == "call" and b[1] == ATOMIC + "load" and field_of(b[2][0]) == "limit"
-            posts = [Counter(linear(("binop", "Add", r, am))) for r, am in ps.adds]
-            if lim_ok and Counter(linear(a)) in posts:
+            if lim_ok and Counter(linear(a)) in ps.posts:
                 taken = ev[3] != 0
                 return (ev, taken)
     return None
 
 
+def subst_captures(t, caps):
+    """Rewrite a closure-body term into the enclosing function's terms: field i of the closure environment (arg 1) is caps[i]."""
+    if not isinstance(t, tuple):
+        return t
+    if t[0] == "field" and t[1] in (("arg", 1), ("deref", ("arg", 1))) and str(t[2]).isdigit() and int(t[2]) < len(caps):
+        return caps[int(t[2])]
+    if t[0] == "deref":
+        inner = subst_captures(t[1], caps)
+        return inner[1] if inner[0] == "ref" else ("deref", inner)
+    return tuple(subst_captures(x, caps) for x in t)
+
+
+def charge_helpers(chk, F):
+    """`an operation succeeds only if the resulting usage is within the configured limit`, from any number of threads: the
+    counter must never be *moved* to a value that was not checked.  A speculative `used.fetch_add(n)` wraps silently (two
+    requests near isize::MAX in flight sum to usize::MAX - 1; the next request then sees a small total and is admitted above the
+    limit, and `prev + n` panics inside the allocator in debug builds).  Rule: no fetch_add on `used` anywhere; `used` grows only
+    through fetch_update whose closure returns Some(v) only for v = checked_add(current, n)'s Some payload behind `v <= limit`;
+    the helper wrapping it returns Some(new usage) exactly on fetch_update's Ok edge and None otherwise."""
+    n_add = 0
+    for crate, fns in F.by_crate.items():
+        for fn in fns:
+            for bb, t in fn.calls():
+                if "callee" not in t or not t["args"] or not t["callee"]["path"].startswith(ATOMIC):
+                    continue
+                o = fn.origin(t["args"][0])
+                if o[0] != "place" or not any(isinstance(p, dict) and p.get("of", "").endswith("alloc::Alloc") and p.get("f") == "used" for p in o[1]["p"]):
+                    continue
+                op = t["callee"]["path"].split("::")[-1]
+                if op == "fetch_add":
+                    n_add += 1
+                    chk.finding("charge-cannot-wrap", crate + "::" + fn.path, "speculative-fetch_add", fn.where(bb),
+                                "`used.fetch_add(n)` charges the request before any test and wraps silently: with two requests near isize::MAX in "
+                                "flight the counter reads usize::MAX - 1, a third request of limit+1 bytes sees a wrapped total <= limit and is "
+                                "admitted (alloc(1001) succeeded under limit 1000, peak reported 999); in debug builds `prev + n` panics inside "
+                                "GlobalAlloc::alloc and leaves its charge behind")
+                elif op == "fetch_update":
+                    verify_helper(chk, F, fn, bb, t)
+    if not n_add and not HELPERS:
+        raise AnchorLost("no operation that increases Alloc.used was found")
+
+
+def verify_helper(chk, F, fn, bb, t):
+    fk = "%s::%s" % (fn.crate, fn.path)
+    paths = sympath.enumerate_paths(fn)
+    ok_paths = True
+    why = ""
+    closure_fn = None
+    for p in paths:
+        ups = [ev for ev in p.events if ev[0] == "call" and ev[2] == ATOMIC + "fetch_update"]
+        others = [ev for ev in p.events if ev[0] == "call" and ev[2].startswith(ATOMIC) and ev[3] and field_of(ev[3][0]) == "used" and ev[2] != ATOMIC + "fetch_update"
+                  and not ev[2].endswith("::load")]
+        if len(ups) != 1 or others:
+            ok_paths, why = False, "a path has %d fetch_update and %d other read-modify-write operations on used" % (len(ups), len(others))
+            break
+        up = ups[0]
+        res = up[5]
+        clo = up[3][3] if len(up[3]) > 3 else None
+        if not clo or clo[0] != "agg" or "closure" not in str(clo[1]):
+            ok_paths, why = False, "the update function of fetch_update is not a closure literal"
+            break
+        caps = clo[2]
+        cands = [c for c in F.closures_of(fn)]
+        if len(cands) != 1:
+            ok_paths, why = False, "cannot identify the closure body (%d closures)" % len(cands)
+            break
+        closure_fn = cands[0]
+        # the helper's own result: Some(payload(Ok) + amount) on the Ok edge, None otherwise
+        ev = next((e for e in p.events if e[0] == "branch" and e[2] == ("discr", res)), None)
+        isok = ev is not None and ((ev[3] == 0) if ev[3] != "otherwise" else (0 not in ev[4]))
+        if p.ret[0] == "agg" and p.ret[1].endswith("Option::Some"):
+            v = p.ret[2][0]
+            amount = ("arg", 2)
+            want = Counter(linear(("binop", "Add", payload(res, "Ok"), amount)))
+            if not isok or Counter(linear(v)) != want:
+                ok_paths, why = False, "the helper returns Some(%s) %s" % (tstr(v), "off the Ok edge of fetch_update" if not isok else "which is not previous usage + amount")
+                break
+        elif p.ret[0] == "agg" and p.ret[1].endswith("Option::None"):
+            if isok:
+                ok_paths, why = False, "the helper returns None although the usage was increased"
+                break
+        else:
+            ok_paths, why = False, "the helper's result is neither Some(..) nor None: %s" % tstr(p.ret)[:80]
+            break
+    # closure body: Some(v) only for v = checked_add(current, amount) behind `v <= limit`
+    if ok_paths and closure_fn is not None:
+        lim_load = ("call", ATOMIC + "load")
+        for cp in sympath.enumerate_paths(closure_fn):
+            r = cp.ret
+            if r[0] == "agg" and r[1].endswith("Option::None"):
+                continue
+            if not (r[0] == "agg" and r[1].endswith("Option::Some")):
+                ok_paths, why = False, "the update closure returns %s" % tstr(r)[:80]
+                break
+            v = subst_captures(r[2][0], caps)
+            adds = [e for e in cp.events if e[0] == "call" and e[2].endswith("::checked_add")]
+            good = False
+            for e in adds:
+                cres = e[5]
+                # one operand is the closure's own argument (the current usage), the other the helper's amount
+                cur_ok = ("arg", 2) in (e[3][0], e[3][1])
+                amt_ok = ("arg", 2) in (subst_captures(x, caps) for x in (e[3][0], e[3][1]) if x != ("arg", 2))
+                somev = subst_captures(payload(cres, "Some"), caps)
+                if not (cur_ok and amt_ok and v == somev):
+                    continue
+                for b in cp.events:
+                    if b[0] == "branch" and b[2][0] == "binop" and b[2][1] in ("Le", "Ge"):
+                        x, y = b[2][2], b[2][3]
+                        if b[2][1] == "Ge":
+                            x, y = y, x
+                        x, y = subst_captures(x, caps), subst_captures(y, caps)
+                        taken = b[3] != 0
+                        if x == somev and y[0] == "call" and y[1] == ATOMIC + "load" and field_of(y[2][0]) == "limit" and taken:
+                            good = True
+            if not good:
+                ok_paths, why = False, "the update closure can return Some(%s), which is not checked_add(current, amount)'s value behind `<= limit`" % tstr(v)[:80]
+                break
+    chk.decide(ok_paths, "charge-cannot-wrap", fk, "checked-charge", fn.where(bb),
+               "used grows only through fetch_update(|cur| checked_add(cur, n) if <= limit): the counter is never moved to an unchecked value, "
+               "a refused request leaves it untouched; the helper returns Some(new usage) exactly when it charged",
+               "the fetch_update that charges a request is not the checked form: %s" % why)
+    if ok_paths:
+        HELPERS[fn.path] = True
+
+
 def rmw_only(chk, F):
-    allowed = {"used": {"load", "fetch_add", "fetch_sub"}, "max": {"load", "store", "fetch_max"},
+    allowed = {"used": {"load", "fetch_add", "fetch_sub", "fetch_update"}, "max": {"load", "store", "fetch_max"},
                "limit": {"load", "store"}}
     n = 0
     for crate, fns in F.by_crate.items():
@@ -311,7 +472,7 @@ def rmw_only(chk, F):
                            "%s on Alloc.%s" % (op, f),
                            "operation %s on Alloc.%s is not in the allowed set %s (used must only be changed by "
                            "atomic read-modify-write)" % (name, f, sorted(allowed.get(f, []))))
-    chk.floor("rmw-only", 18, "(atomic operations on Alloc's counters)")
+    chk.floor("rmw-only", 16, "(atomic operations on Alloc's counters)")
 
 
 def accessors(chk, F):
